@@ -93,8 +93,8 @@ func inBubble(t *testing.T, f func()) (res bubbleResult) {
 		if len(frames) == 1 {
 			return bubbleResult{Spin: fmt.Sprintf("after %v of real time a goroutine of the client is still running without blocking (hot loop in %s):\n%s", limit, best, g)}
 		}
-		return bubbleResult{Spin: fmt.Sprintf("after %v of real time the client is still busy without the clock ever advancing (live-lock: retrying with no back-off; "+
-			"client frames seen running in %d of %d samples: %v):\n%s", limit, samplesWithClient, samples, frames, g), Livelock: true}
+		return bubbleResult{Spin: fmt.Sprintf("after %v of real time the client is still busy (a retry loop that never ends: no back-off at all, or one that nothing - "+
+			"success, the caller's context, Close - ever terminates; client frames seen running in %d of %d samples: %v):\n%s", limit, samplesWithClient, samples, frames, g), Livelock: true}
 	case len(mutexed) > 0:
 		return bubbleResult{Frozen: "the bubble's clock is frozen by a goroutine parked on a mutex (harness limitation):\n" + mutexed[0]}
 	}
